@@ -140,7 +140,7 @@ class RankSim:
     """Everything fullSimulation.main() builds before its time loop, for one rank."""
 
     def __init__(self, comm, cfg, nprocs=None, layout="v_parallel", save=True, diagnostics=True, save_step=5,
-                 chi=0, adiabatic=True):
+                 chi=0, adiabatic=True, qn_degree=7):
         from pygyro.diagnostics.diagnostic_collector import DiagnosticCollector
         from pygyro.poisson.poisson_solver import DensityFinder, QuasiNeutralitySolver
         from pygyro.advection.advection import (FluxSurfaceAdvection, VParallelAdvection, PoloidalAdvection,
@@ -173,9 +173,9 @@ class RankSim:
                         dtype=np.complex128)
         self.density = DensityFinder(6, f.getSpline(3), f.eta_grid, c)
         if adiabatic:
-            self.QN = QuasiNeutralitySolver(f.eta_grid[:3], 7, f.getSpline(0), c, chi=chi)
+            self.QN = QuasiNeutralitySolver(f.eta_grid[:3], qn_degree, f.getSpline(0), c, chi=chi)
         else:
-            self.QN = QuasiNeutralitySolver(f.eta_grid[:3], 7, f.getSpline(0), c, adiabaticElectrons=False)
+            self.QN = QuasiNeutralitySolver(f.eta_grid[:3], qn_degree, f.getSpline(0), c, adiabaticElectrons=False)
         self.parGrad = ParallelGradient(f.getSpline(1), f.eta_grid, self.remapperPhi.getLayout('v_parallel_1d'), c)
         self.diagnostics = DiagnosticCollector(comm, save_step, self.fullStep, f, self.phi) if diagnostics else None
 
